@@ -128,3 +128,72 @@ Print Assumptions C17_symbol_ranges_valid_partial.
 Print Assumptions C17_range_valid_meaning.
 Print Assumptions C17_ranges_come_from_ops.
 Print Assumptions C17_nonvacuous.
+
+(** ---- Core fragment, NO hypothesis on an op log (bridge to the indexer model of group scope) ----
+    [C17_symbol_ranges_valid_core]: for EVERY Core workspace (any number of files, includes, any program): if every
+    range of every file's AST (CoreParts.file_rngs: the collector of builder "bridge") is valid when paired with the
+    number of ITS file, then every range stored in or returned from the symbol-map state [abs (index_ws w)] that the
+    indexer MODEL (Indexer.v, group scope) stands for is valid.  The checked hypothesis ops_ranges_wf is replaced by a
+    proof over Indexer.v (proofs/IndexerRanges.v): every range the indexer stores is `FileRange::new(current file,
+    range of an AST part)` and the current file is the file whose statements are being indexed (file-trace discipline
+    across `include`).
+    [C17_ranges_come_from_ast_core]: the same with "is the range of an AST part of file g, tagged g" as predicate
+    (no range is invented, none is attributed to the wrong file).
+    [C17_pipeline_core]: composed with the model pipeline (Pipeline.analyze: texts -> modelled parser -> tree ->
+    CoreAst; proofs/BridgeSymbol.v, PipelineProofs.v of builder "bridge"): for EVERY analysis that yields a Core
+    workspace all those ranges are valid in the texts of the analysis -- no hypothesis on the AST either.
+    What links this to the Rust code: (a) Indexer.v + IndexerOps.abs = index.rs + symbol_map.rs: CHECKED state equality
+    (checks/C06.py, bridge_to_indexer_model); (b) coreast (harness) = AstToCore.core_of_tree: bridge's checked tie. *)
+From TG.Model Require CoreAst CoreParts AstToCore Scope Indexer IndexerOps Pipeline.
+From TG.Proofs Require BridgeSymbol BridgeText IndexerRanges IndexerPipeline.
+Theorem C17_symbol_ranges_valid_core : forall ws (w : CoreAst.workspace),
+  (forall g body, Scope.nthN (CoreAst.ws_files w) g = Some body ->
+     Forall (fun r => range_valid ws (mkFR g (CoreAst.r_lo r) (CoreAst.r_hi r)) = true) (CoreParts.file_rngs body)) ->
+  let S := IndexerOps.abs (Indexer.index_ws w) in
+  (forall f p t, goto_definition S f p = SOk (Some t) -> range_valid ws t = true) /\
+  (forall f p rs r, references S f p = SOk (Some rs) -> In r rs -> range_valid ws r = true) /\
+  (forall loc l r s, iter_symbols_in_range S loc = SOk (Some l) -> In (r, s) l -> range_valid ws r = true) /\
+  (forall s e, get_entry S s = Some e ->
+     range_valid ws (e_def e) = true /\ forall r, In r (e_refs e) -> range_valid ws r = true) /\
+  (forall d, In d (sm_diags S) -> range_valid ws d = true).
+Proof. exact IndexerRanges.c17_symbol_ranges_valid_core. Qed.
+
+Theorem C17_ranges_come_from_ast_core : forall w : CoreAst.workspace,
+  let S := IndexerOps.abs (Indexer.index_ws w) in
+  let from_ast := fun fr => exists g body r, Scope.nthN (CoreAst.ws_files w) g = Some body /\
+                     In r (CoreParts.file_rngs body) /\ fr = mkFR g (CoreAst.r_lo r) (CoreAst.r_hi r) in
+  (forall f p t, goto_definition S f p = SOk (Some t) -> from_ast t) /\
+  (forall f p rs, references S f p = SOk (Some rs) -> Forall from_ast rs) /\
+  (forall d, In d (sm_diags S) -> from_ast d).
+Proof.
+  intros w S from_ast. pose proof (IndexerRanges.c17_ranges_come_from_ast w) as HA.
+  split; [|split].
+  - intros f p t H. exact (SymbolRanges.all_ranges_goto _ _ f p t HA H).
+  - intros f p rs H. exact (SymbolRanges.all_ranges_references _ _ _ _ _ HA H).
+  - intros d Hd. pose proof (SymbolRanges.ar_diags _ _ HA) as HF. rewrite Forall_forall in HF. exact (HF d Hd).
+Qed.
+
+Theorem C17_pipeline_core : forall pfuel cfuel files root a w,
+  Pipeline.analyze pfuel cfuel files root = Some a -> Pipeline.an_core a = AstToCore.Ok w ->
+  let S := IndexerOps.abs (Indexer.index_ws w) in
+  let ws := BridgeSymbol.an_texts a in
+  (forall f p t, goto_definition S f p = SOk (Some t) -> range_valid ws t = true) /\
+  (forall f p rs r, references S f p = SOk (Some rs) -> In r rs -> range_valid ws r = true) /\
+  (forall loc l r s, iter_symbols_in_range S loc = SOk (Some l) -> In (r, s) l -> range_valid ws r = true) /\
+  (forall s e, get_entry S s = Some e ->
+     range_valid ws (e_def e) = true /\ forall r, In r (e_refs e) -> range_valid ws r = true) /\
+  (forall d, In d (sm_diags S) -> range_valid ws d = true).
+Proof. exact IndexerPipeline.c17_pipeline_core. Qed.
+
+(** non-vacuity of the pipeline statement: `class A<int x> { int y = x; }` / `def d : A<1> { let y = !add(y, 2); }` *)
+Theorem C17_pipeline_nonvacuous :
+  exists a w, Pipeline.analyze 200 10 [(IndexerPipeline.pipe_ex_path, BridgeText.bridge_example_text)] IndexerPipeline.pipe_ex_path = Some a /\
+    Pipeline.an_core a = AstToCore.Ok w /\
+    goto_definition (IndexerOps.abs (Indexer.index_ws w)) 0 38 = SOk (Some (mkFR 0 6 7)) /\
+    references (IndexerOps.abs (Indexer.index_ws w)) 0 6 = SOk (Some [mkFR 0 38 39]) /\
+    goto_definition (IndexerOps.abs (Indexer.index_ws w)) 0 25 = SOk (Some (mkFR 0 12 13)).
+Proof. exact IndexerPipeline.c17_pipeline_nonvacuous. Qed.
+Print Assumptions C17_symbol_ranges_valid_core.
+Print Assumptions C17_ranges_come_from_ast_core.
+Print Assumptions C17_pipeline_core.
+Print Assumptions C17_pipeline_nonvacuous.
